@@ -48,7 +48,7 @@ func wrap(b []byte) []byte { return append(refrlp.Head(true, uint64(len(b))), b.
 
 // forEachGrammar enumerates family (ii).  huge=true marks inputs whose declared
 // size exceeds what is present (the allocation oracle applies to those).
-func forEachGrammar(thorough bool, f func(in []byte, huge bool) bool) {
+func forEachGrammar(thorough bool, f func(in []byte, huge bool, declared uint64) bool) {
 	sizes := []uint64{0, 1, 2, 55, 56, 57, 255, 256, 65535, 65536, 1 << 20, 1 << 32, 1 << 63, 1<<64 - 1}
 	maxMat := uint64(300)
 	if thorough {
@@ -100,7 +100,7 @@ func forEachGrammar(thorough bool, f func(in []byte, huge bool) bool) {
 							variants = append(variants, wrap(wrap(w1)))
 						}
 						for _, v := range variants {
-							if !f(v, huge) {
+							if !f(v, huge, n) {
 								return
 							}
 						}
